@@ -124,6 +124,12 @@ impl TermSegments {
         }
         // Cold path: reverse-scan historical segments.
         let count = self.seg_count.load(Ordering::Acquire);
+        if count > MAX_TERM_SEGMENTS {
+            // The array overflowed: on_append() dropped at least one segment, so the scan below
+            // could index past the array or report the term of an older segment. Answer "unknown"
+            // and let entry_term() fall back to the SkipMap, as documented on `TermSegments`.
+            return None;
+        }
         (0..count).rev().find_map(|i| {
             let start = self.seg_starts[i].load(Ordering::Acquire);
             if start <= index {
